@@ -466,10 +466,18 @@ def run_history(c):
         tag = st.get("tag")
         search.unique_tag = tag
         out = {}
+        import signal
+
+        def _alarm(*_):
+            raise TimeoutError("real fit exceeded its time budget")
+        signal.signal(signal.SIGALRM, _alarm)
+        signal.alarm(60)
         try:
             search.fit(model=model, analysis=Analysis())
         except BaseException as e:  # noqa
-            out["fit_error"] = exc_name(e)
+            out["fit_error"] = exc_name(e)       # the sampler's business; what the paths describe is observed below
+        finally:
+            signal.alarm(0)
         try:
             ident = search.paths._identifier
             out["paths_identifier"] = search.paths.identifier
